@@ -1985,9 +1985,11 @@ func (ls *LState) Resume(th *LState, fn *LFunction, args ...LValue) (ResumeState
 		th.initCallFrame(cf)
 		th.Panic = panicWithoutTraceback
 	} else {
+		base := th.reg.Top()
 		for _, arg := range args {
 			th.Push(arg)
 		}
+		th.adjustYieldResults(base)
 	}
 	top := ls.GetTop()
 	threadRun(th)
@@ -2015,6 +2017,14 @@ func (ls *LState) Yield(values ...LValue) int {
 		ls.Push(lv)
 	}
 	return -1
+}
+
+// adjustYieldResults gives the pending yield call of a resumed thread exactly the
+// number of results its call site asked for (the values start at register base).
+func (ls *LState) adjustYieldResults(base int) {
+	if ls.yieldNRet != MultRet {
+		ls.reg.SetTop(base + ls.yieldNRet)
+	}
 }
 
 func (ls *LState) XMoveTo(other *LState, n int) {
